@@ -277,7 +277,7 @@ func c15(ctx *hlib.Ctx) {
 
 	if ctx.Tier == "thorough" {
 		// exhaustive small scope (validates the correspondence; not the proof):
-		// 2 peers, 2 pieces, limit 1 and 2, timeout 1, every history of length <= 4 over 13 ops
+		// 2 peers, 2 pieces, limit 1 and 2, timeout 1, every history of length <= 4 over 10 ops
 		alpha := []c15op{
 			res(0, false, false, 0, 1), res(1, false, false, 0, 1), res(0, false, true, 0, 1),
 			{k: kUnsent, p: 0, i: 0}, {k: kInvalid, p: 1, i: 0},
